@@ -81,6 +81,15 @@ def run(chk):
                         return check(SL, pk)
                     chk.run("C13.R1", SITE[eq_type], cfg, go, construct=f"system terms[{eq_type}]")
 
+        # the dictionaries of a system are keyed by name: the insertion order of any ONE of them (unknowns, equations, weights,
+        # per-unknown specifications) is immaterial - pairing two of them by position is reported here
+        for rev in (('u',), ('dyn',), ('weights',), ('specs',)):
+            cfg = {"loss": eq_type, "net": "PINN", "weights": "dict", "reversed_insertion_order": list(rev), "terms": list(names)}
+
+            def go_rev(eq_type=eq_type, names=names, rev=rev):
+                return check(SystemLoss(E, eq_type, 'PINN', terms=names, weights='dict', reverse_dicts=rev))
+            chk.run("C13.R1", SITE[eq_type], cfg, go_rev, construct=f"system terms with one dictionary in another order[{eq_type}]")
+
         # weights that are not passed at all take the declared default of the weights class: 1.0 for the PDE systems, like the
         # single-loss weights (the ODE class declares None for its fields: see DESIGN section 6)
         if eq_type != 'ODE':
@@ -125,6 +134,26 @@ def run(chk):
                     SL = SystemLoss(E, eq_type, kind, unknowns=unknowns, terms=terms, specs={'a': sp_a})
                     return check(SL)
                 chk.run("C13.R1", SITE[eq_type], cfg, go_specs, construct=f"system terms with per-unknown selections[{eq_type}]")
+
+        # an unknown subject to ONE kind of constraint only (the other unknown has all of them): every constraint that is
+        # configured for an unknown contributes its term, whatever else is or is not configured for that unknown
+        single_kinds = [t for t in names if t not in ('dyn', 'obs')]
+        for only in single_kinds:
+            for who in ('a', 'b'):
+                cfg = {"loss": eq_type, "net": "PINN", "terms": list(names), "specs": {who: f"only the {only} constraint"}}
+
+                def go_only(eq_type=eq_type, names=names, only=only, who=who):
+                    SL = SystemLoss(E, eq_type, 'PINN', terms=names, weights='dict', specs={who: {'terms': (only, 'obs')}})
+                    return check(SL)
+                chk.run("C13.R1", SITE[eq_type], cfg, go_only, construct=f"system terms, an unknown with one constraint kind[{eq_type}]")
+                no_obs = tuple(t for t in names if t != 'obs')
+                cfg = {"loss": eq_type, "net": "PINN", "terms": list(no_obs), "specs": {who: f"only the {only} constraint"}}
+
+                def go_only2(eq_type=eq_type, no_obs=no_obs, only=only, who=who):
+                    SL = SystemLoss(E, eq_type, 'PINN', terms=no_obs, weights='dict', specs={who: {'terms': (only,)}})
+                    return check(SL)
+                chk.run("C13.R1", SITE[eq_type], cfg, go_only2,
+                        construct=f"system terms without observations, an unknown with one constraint kind[{eq_type}]")
 
         # R4: numbers of equations / unknowns
         shapes = [(1, 2), (2, 1), (3, 2), (2, 3)] if thorough else [(1, 2), (3, 2)]
